@@ -138,6 +138,9 @@ class MusepackInfo(StreamInfo):
             except (EOFError, ValueError):
                 raise MusepackHeaderError("Invalid packet size.")
             data_size = frame_size - key_size - slen
+            if data_size < 0:
+                # the size includes the key and the size field itself
+                raise MusepackHeaderError("Invalid packet size.")
             # packets can be at maximum data_size big and are padded with zeros
 
             if frame_type == b"SH":
